@@ -728,6 +728,13 @@ impl<'a> VisitMut for Rw<'a> {
                     let r = &b.right;
                     self.fire("R-OPASSIGN");
                     replacement = Some(parse_quote!(#l = #l #op (#r)));
+                } else if matches!(b.op, Sub(_)) && self.opts.extra.contains_key("usize_sub_diverges") && matches!(&*b.right, Expr::Lit(l) if matches!(l.lit, syn::Lit::Int(_))) {
+                    // R-SUB.diverge: `n - k` on usize panics on underflow in a debug build (and the wrapped value is
+                    // rejected by the following bounds-checked access in release): modelled as diverging
+                    let l = &b.left;
+                    let r = &b.right;
+                    self.fire("R-SUB.diverge");
+                    replacement = Some(parse_quote!(sub_or_panic(#l, #r)));
                 } else if matches!(b.op, BitAnd(_) | BitOr(_)) && (is_boolish(&b.left) || is_boolish(&b.right)) {
                     // R-BOOLOP: non-short-circuit `&` / `|` on pure boolean operands
                     let l = &b.left;
